@@ -308,10 +308,11 @@ func init() {
 	register(&Property{
 		ID: "C16",
 		Explanation: "Decides structural necessary conditions of 'semantic action references bind to the right symbols': STACKIDX on the code emitted for $-references in every committed applyRule case (slots inside the rule, or inside the prefix for mid-rule actions). GUARD(markerfree): ActionVars.SymRefCount (the stack depth references are computed from) counts only non-marker symbols. " +
-			"LOCKSTEP(reference): ActionVars.resolve reports the position whose stack index it returns (the generator picks the type assertion by position). GUARD(remap-markerfree): the position remap stores the count of pushed symbols (never a length of rule.RHS, which includes state markers). FIELDCOV(extract-pos): the reference that replaces an extracted set/list carries expr.Pos on every path to its return. Not decided: that K is the slot of the named symbol in every expansion. FIELDCOV(action-key): every ActionVars field that commandExtractor.extract consults (SymRefCount becomes the stack offset) is part of ActionVars.String(), the key under which identical mid-rule actions share one nonterminal.",
-		Rules: []string{"STACKIDX", "GUARD(markerfree)", "LOCKSTEP(reference)", "GUARD(remap-markerfree)", "FIELDCOV(extract-pos)", "FIELDCOV(action-key)"},
+			"LOCKSTEP(reference): ActionVars.resolve reports the position whose stack index it returns (the generator picks the type assertion by position). GUARD(remap-markerfree): the position remap stores the count of pushed symbols (never a length of rule.RHS, which includes state markers). FIELDCOV(extract-pos): the reference that replaces an extracted set/list carries expr.Pos on every path to its return. Not decided: that K is the slot of the named symbol in every expansion. FIELDCOV(action-key): every ActionVars field that commandExtractor.extract consults (SymRefCount becomes the stack offset) is part of ActionVars.String(), the key under which identical mid-rule actions share one nonterminal. FIELDCOV(renumber): both passes that renumber nonterminals (Instantiate, Rearrange) write every record that holds symbol numbers: Expr.Symbol, ArgRef.Symbol (the table $-references and their types resolve against), TokenSet.Symbol, Input.Nonterm.",
+		Rules: []string{"STACKIDX", "GUARD(markerfree)", "LOCKSTEP(reference)", "GUARD(remap-markerfree)", "FIELDCOV(extract-pos)", "FIELDCOV(action-key)", "FIELDCOV(renumber)"},
 		Run: func(c *Ctx) {
 			ruleREMAP(c)
+			ruleRENUMBER(c)
 			ruleACTIONKEY(c)
 			ruleEXTRACTPOS(c)
 			ruleSTACKIDX(c)
@@ -448,10 +449,11 @@ func init() {
 	register(&Property{
 		ID: "C14",
 		Explanation: "Decides structural necessary conditions of 'template instantiation preserves meaning': DTX(predicate): the predicate evaluator of conditional alternatives computes or / and / not / equals (all truth assignments of two operands, bound value equal or not). ESCAPE: the per-nonterminal required-flag sets of PropagateLookaheads are not kept in a recycled buffer (a lost 'flag is never provided' diagnostic ends in a process exit). CYCLE/SHARED: instantiating and renumbering token-set expressions terminates on cyclic sets and touches shared nodes once. DTX(expr-equal) as in C13. " +
-			"Not decided: argument propagation and the instantiation work-list themselves. BOUNDARY(terminals): every comparison of a symbol with the terminal count cuts exactly at the first nonterminal (44 sites; `sub > 0` would skip the first declared nonterminal when lookahead flags are propagated). MUSTPASS(conditional-outermost): convertRules applies the [predicate] wrapper last, so a disabled alternative is the direct child of the Choice that Instantiate prunes. ESCAPE also follows slices into callees that keep them (set.Closure.Add) and treats buffers captured by closures as refilled.",
-		Rules: []string{"DTX(predicate)", "ESCAPE", "CYCLE", "SHARED", "DTX(expr-equal)", "BOUNDARY(terminals)", "MUSTPASS(conditional-outermost)"},
+			"Not decided: argument propagation and the instantiation work-list themselves. BOUNDARY(terminals): every comparison of a symbol with the terminal count cuts exactly at the first nonterminal (44 sites; `sub > 0` would skip the first declared nonterminal when lookahead flags are propagated). MUSTPASS(conditional-outermost): convertRules applies the [predicate] wrapper last, so a disabled alternative is the direct child of the Choice that Instantiate prunes. ESCAPE also follows slices into callees that keep them (set.Closure.Add) and treats buffers captured by closures as refilled. FIELDCOV(renumber) as in C16 (instantiation renumbers every holder of symbol numbers).",
+		Rules: []string{"DTX(predicate)", "ESCAPE", "CYCLE", "SHARED", "DTX(expr-equal)", "BOUNDARY(terminals)", "MUSTPASS(conditional-outermost)", "FIELDCOV(renumber)"},
 		Run: func(c *Ctx) {
 			rulePREDICATE(c)
+			ruleRENUMBER(c)
 			ruleWRAPORDER(c)
 			ruleBOUNDARY(c, "syntax", "compiler", "lalr", "grammar", "gen")
 			ruleESCAPE(c, map[string]bool{"syntax": true})
